@@ -51,8 +51,11 @@ func (w *WaterMark) Init(closer *Closer) {
 
 // Begin sets the last index to the given value.
 func (w *WaterMark) Begin(index uint64) {
-	w.setLastIndex(index)
+	// Count the index before publishing it through lastIndex: otherwise a concurrent
+	// Done can observe lastIndex >= index with an empty slot and advance past it.
 	w.addIndex(index, 1)
+	w.setLastIndex(index)
+	w.tryAdvance()
 }
 
 // BeginMany works like Begin but accepts multiple indices.
@@ -60,10 +63,11 @@ func (w *WaterMark) BeginMany(indices []uint64) {
 	if len(indices) == 0 {
 		return
 	}
-	w.setLastIndex(indices[len(indices)-1])
 	for _, idx := range indices {
 		w.addIndex(idx, 1)
 	}
+	w.setLastIndex(indices[len(indices)-1])
+	w.tryAdvance()
 }
 
 // Done sets a single index as done.
